@@ -19,9 +19,31 @@ def index_of(g):
     return [[k, pos.get(id(v), -1)] for k, v in g._deme_map.items()]
 
 
-def gen_valid_graphs(ctx, n, **kw):
+def example_graphs():
+    """the example models shipped with the repository (examples/*.yaml of the tree under test):
+    realistic documents with defaults sections, many demes and non-dyadic numbers — used first by the
+    modules whose comparison involves no arithmetic on the numbers"""
+    import glob
+    import os
+    root = os.environ.get("VERIF_REPO", "/repo")
+    out = []
+    for f in sorted(glob.glob(os.path.join(root, "examples", "*.yaml"))):
+        try:
+            doc = demes.load_asdict(f)
+            c = impl.resolve(doc)
+        except Exception:  # noqa: BLE001
+            continue
+        if c[0] == "ok":
+            out.append((doc, c[2], ["example:" + os.path.basename(f)]))
+    return out
+
+
+def gen_valid_graphs(ctx, n, corpus=False, **kw):
     """n (doc, graph, model features) triples accepted by the implementation"""
     out = []
+    if corpus and not getattr(ctx, "_examples_done", False):
+        ctx._examples_done = True
+        out = example_graphs()
     tries = 0
     while len(out) < n and tries < 20 * n + 100:
         tries += 1
